@@ -1078,9 +1078,18 @@ def run_concrete(scenario, cfg, values: dict):
     except Exception as e:
         err = f"{type(e).__name__}: {e}\n{traceback.format_exc()[-2000:]}"
         tb = e.__traceback__
-        while tb is not None and tb.tb_next is not None:
+        through_package = False
+        while tb is not None:
+            if _in_code_under_test(tb.tb_frame.f_code.co_filename):
+                through_package = True
             tb = tb.tb_next
-        if tb is not None and _in_code_under_test(tb.tb_frame.f_code.co_filename):
-            # the real code rejects an input of the scenario: recorded like a failed obligation
+        if not through_package and type(e).__module__.startswith("numba"):
+            # compile-time errors have no frame inside the package: numba quotes the source file it was compiling
+            import re
+
+            through_package = any(_in_code_under_test(os.path.abspath(m)) or "/pde/" in m or m.startswith("pde/") for m in re.findall(r'File "([^"]+)"', str(e)))
+        if through_package:
+            # the real code (or the compiler working on it) rejects an input of the scenario: recorded like a failed
+            # obligation; the type may differ from the un-jitted run (numba reports e.g. a TypingError at compile time)
             env.failed.append({"name": f"no-exception:{type(e).__name__}", "kind": "exception", "msg": str(e)[:300]})
     return env.failed, env.checked, err, env.notes
